@@ -4,6 +4,12 @@ seeded/<id>/meta.json 'also_check'), records detection in meta.json, prints a ta
 import glob, json, os, subprocess, sys
 os.environ["VERIF_EVIDENCE_DIR"] = "/tmp/verif_seed_evidence"
 ROOT = "/verif"
+# MATRIX_REPO=<scratch worktree of /repo HEAD>: patch and check THAT tree (with its own work directory), so /repo stays free for other work
+REPO = os.environ.get("MATRIX_REPO", "/repo")
+if REPO != "/repo":
+    os.environ["VERIF_REPO"] = REPO
+    os.environ["VERIF_WORK"] = os.path.join(os.path.dirname(REPO.rstrip("/")), "work")
+    os.makedirs(os.environ["VERIF_WORK"], exist_ok=True)
 only = sys.argv[1:]
 rows = []
 for d in sorted(glob.glob(f"{ROOT}/seeded/*")):
@@ -12,8 +18,8 @@ for d in sorted(glob.glob(f"{ROOT}/seeded/*")):
         continue
     meta = json.load(open(f"{d}/meta.json"))
     props = [meta["breaks_property"]] + meta.get("also_check", [])
-    subprocess.run(["git", "-C", "/repo", "checkout", "--", "."], check=True)
-    r = subprocess.run(["git", "-C", "/repo", "apply", f"{d}/patch.diff"], capture_output=True, text=True)
+    subprocess.run(["git", "-C", REPO, "checkout", "--", "."], check=True)
+    r = subprocess.run(["git", "-C", REPO, "apply", f"{d}/patch.diff"], capture_output=True, text=True)
     if r.returncode != 0:
         rows.append((name, "patch does not apply", ""))
         continue
@@ -24,7 +30,7 @@ for d in sorted(glob.glob(f"{ROOT}/seeded/*")):
             ob = [l for l in c.stdout.splitlines() if l.startswith("FAILED-OBLIGATION") or l.startswith("UNDECIDED")]
             res[p] = dict(exit=c.returncode, detail=(ob[0][:300] if ob else ""))
     finally:
-        subprocess.run(["git", "-C", "/repo", "checkout", "--", "."], check=True)
+        subprocess.run(["git", "-C", REPO, "checkout", "--", "."], check=True)
     det = [p for p, v in res.items() if v["exit"] == 1]
     meta["checks_run"] = {p: v for p, v in res.items()}
     meta["detected_by"] = det
